@@ -76,6 +76,8 @@ struct GridRec {
 static vh::Stats st;
 static bool g_verbose = false;
 static bool g_nofork = false; // debugging aid: run the construction in this process
+static uint64_t g_slowcap = 400; // largest generator count of the families on which the new construction is O(n^2) (coplanar, cospherical)
+static double g_cpu_factor = 1.;  // watchdog scale (sanitizer builds are slower)
 static double g_xparam = 0.;  // exploration aid: overrides sigma / amplitude / wall distance
 
 // ---------------------------------------------------------------------------
@@ -104,40 +106,46 @@ static const char *REGNAME[NFAM][3] = {{"", "", ""},
                                        {".tiny", ".small", ".large"},
                                        {".all", ".some", ".single"}};
 
-static void make_case(Case &c, uint64_t id, uint64_t seed, vh::Rng r, uint64_t forced_n, int forced_fam, int forced_reg, double forced_aspect) {
+// idx = id * stride + seed % stride enumerates the cases of all shards of a run (the shard seeds are consecutive): families,
+// regimes and the few large grids are stratified over idx, everything else is drawn from the PRNG stream of the case.
+static void make_case(Case &c, uint64_t id, uint64_t idx, vh::Rng r, uint64_t forced_n, int forced_fam, int forced_reg, double forced_aspect) {
   c.id = id;
-  c.fam = forced_fam >= 0 ? forced_fam : (int)((id + seed) % NFAM);
-  c.reg = forced_reg >= 0 ? forced_reg % 3 : (int)(((id + seed) / NFAM) % 3);
+  c.fam = forced_fam >= 0 ? forced_fam : (int)(idx % NFAM);
+  c.reg = forced_reg >= 0 ? forced_reg % 3 : (int)((idx / NFAM) % 3);
   c.famkey = FAMNAME[c.fam];
   c.regname = std::string(FAMNAME[c.fam]) + REGNAME[c.fam][c.reg];
   c.param = 0.;
+  // independent streams: forcing the family / regime / size of a case (pinned witnesses) does not change its box or positions
+  vh::Rng rbox = r.fork(11), rsize = r.fork(12), rpos = r.fork(13), rsmp = r.fork(14);
   // ---- box ----
-  const double scale = r.chance(0.5) ? 1. : r.loguniform(1e-6, 1e20);
-  double asp = r.chance(0.3) ? 1. : r.loguniform(1., 100.);
+  const double scale = rbox.chance(0.5) ? 1. : rbox.loguniform(1e-6, 1e20);
+  double asp = rbox.chance(0.3) ? 1. : rbox.loguniform(1., 100.);
   if (forced_aspect > 0.) asp = forced_aspect;
-  double rel[3] = {1., std::pow(asp, r.uniform()), asp};
-  const int rot = (int)r.below(3);
+  double rel[3] = {1., std::pow(asp, rbox.uniform()), asp};
+  const int rot = (int)rbox.below(3);
   for (int k = 0; k < 3; ++k) c.s[(k + rot) % 3] = rel[k] * scale;
-  if (r.chance(0.5)) std::swap(c.s[0], c.s[1]);
-  const int akind = (int)r.below(4);
+  if (rbox.chance(0.5)) std::swap(c.s[0], c.s[1]);
+  const int akind = (int)rbox.below(4);
   for (int k = 0; k < 3; ++k) {
     if (akind == 0) c.a[k] = 0.;
-    else if (akind == 1) c.a[k] = c.s[k] * r.uniform(-3., 3.);
+    else if (akind == 1) c.a[k] = c.s[k] * rbox.uniform(-3., 3.);
     else if (akind == 2) c.a[k] = -0.5 * c.s[k];
-    else c.a[k] = c.s[k] * (r.chance(0.34) ? (r.chance(0.5) ? 100. : -101.) : r.uniform(-1., 1.));
+    else c.a[k] = c.s[k] * (rbox.chance(0.34) ? (rbox.chance(0.5) ? 100. : -101.) : rbox.uniform(-1., 1.));
   }
   const double smin = std::min(c.s[0], std::min(c.s[1], c.s[2]));
   // ---- size ----
   uint64_t n;
   if (forced_n) n = forced_n;
   else {
-    const bool big = ((id + seed / 7) % 20) == 0;
-    const double u = r.uniform();
-    if (big) n = r.chance(0.5) ? 2000 : (uint64_t)r.range(1000, 2000);
-    else if (u < 0.15) n = (uint64_t)r.range(2, 12);
-    else if (u < 0.85) n = (uint64_t)r.range(13, 300);
-    else n = (uint64_t)r.range(301, 800);
+    const bool big = (idx % 20) == 9;
+    const double u = rsize.uniform();
+    if (big) n = rsize.chance(0.5) ? 2000 : (uint64_t)rsize.range(1000, 2000);
+    else if (u < 0.03) n = 2;
+    else if (u < 0.15) n = (uint64_t)rsize.range(3, 12);
+    else if (u < 0.85) n = (uint64_t)rsize.range(13, 300);
+    else n = (uint64_t)rsize.range(301, 800);
   }
+  if (!forced_n && (c.fam == COPLANAR || c.fam == COSPHERE) && n > g_slowcap) n = g_slowcap - rpos.below(g_slowcap / 4);
   std::vector< CV > &p = c.pos;
   p.clear();
   char buf[256];
@@ -145,35 +153,35 @@ static void make_case(Case &c, uint64_t id, uint64_t seed, vh::Rng r, uint64_t f
   case UNIFORM: {
     c.sub = "uniform";
     for (uint64_t i = 0; i < n; ++i)
-      p.push_back(CV(c.a[0] + c.s[0] * r.uniform(), c.a[1] + c.s[1] * r.uniform(), c.a[2] + c.s[2] * r.uniform()));
+      p.push_back(CV(c.a[0] + c.s[0] * rpos.uniform(), c.a[1] + c.s[1] * rpos.uniform(), c.a[2] + c.s[2] * rpos.uniform()));
     break;
   }
   case CLUSTER: {
-    const int nb = (int)r.range(1, 4);
+    const int nb = (int)rpos.range(1, 4);
     double cen[4][3], sig[4];
     double smallest = 1.;
     for (int b = 0; b < nb; ++b) {
-      for (int k = 0; k < 3; ++k) cen[b][k] = c.a[k] + c.s[k] * r.uniform(0.05, 0.95);
+      for (int k = 0; k < 3; ++k) cen[b][k] = c.a[k] + c.s[k] * rpos.uniform(0.05, 0.95);
       static const double slo[3] = {1e-4, 3e-4, 3e-3}, shi[3] = {3e-4, 3e-3, 3e-2};
-      double sr = (b == 0) ? r.loguniform(slo[c.reg], shi[c.reg]) : r.loguniform(slo[c.reg], 3e-2);
+      double sr = (b == 0) ? rpos.loguniform(slo[c.reg], shi[c.reg]) : rpos.loguniform(slo[c.reg], 3e-2);
       if (g_xparam > 0.) sr = g_xparam;
       smallest = std::min(smallest, sr);
       sig[b] = sr * smin;
     }
     c.param = smallest;
-    const double bg = r.chance(0.5) ? 0. : r.uniform(0., 0.3);
+    const double bg = rpos.chance(0.5) ? 0. : rpos.uniform(0., 0.3);
     std::snprintf(buf, sizeof buf, "blobs=%d min_sigma=%.3g background=%.2f", nb, smallest, bg);
     c.sub = buf;
     while (p.size() < n) {
-      if (r.chance(bg)) {
-        p.push_back(CV(c.a[0] + c.s[0] * r.uniform(), c.a[1] + c.s[1] * r.uniform(), c.a[2] + c.s[2] * r.uniform()));
+      if (rpos.chance(bg)) {
+        p.push_back(CV(c.a[0] + c.s[0] * rpos.uniform(), c.a[1] + c.s[1] * rpos.uniform(), c.a[2] + c.s[2] * rpos.uniform()));
         continue;
       }
-      const int b = (int)r.below(nb);
+      const int b = (int)rpos.below(nb);
       double x[3];
       bool in = true;
       for (int k = 0; k < 3; ++k) {
-        x[k] = cen[b][k] + sig[b] * gauss(r);
+        x[k] = cen[b][k] + sig[b] * gauss(rpos);
         in &= (x[k] > c.a[k] && x[k] < c.a[k] + c.s[k]);
       }
       if (in) p.push_back(CV(x[0], x[1], x[2]));
@@ -185,35 +193,35 @@ static void make_case(Case &c, uint64_t id, uint64_t seed, vh::Rng r, uint64_t f
     const double amp = 1e-12;
     c.param = amp;
     if (!tilted) {
-      const int ax = (int)r.below(3);
-      const double z0 = r.uniform(0.1, 0.9);
+      const int ax = (int)rpos.below(3);
+      const double z0 = rpos.uniform(0.1, 0.9);
       std::snprintf(buf, sizeof buf, "axis-plane axis=%d perturb=1e-12", ax);
       c.sub = buf;
       for (uint64_t i = 0; i < n; ++i) {
         double x[3];
-        for (int k = 0; k < 3; ++k) x[k] = c.a[k] + c.s[k] * r.uniform();
-        x[ax] = c.a[ax] + c.s[ax] * (z0 + amp * r.uniform(-1., 1.));
+        for (int k = 0; k < 3; ++k) x[k] = c.a[k] + c.s[k] * rpos.uniform();
+        x[ax] = c.a[ax] + c.s[ax] * (z0 + amp * rpos.uniform(-1., 1.));
         p.push_back(CV(x[0], x[1], x[2]));
       }
     } else {
       // plane through a point near the centre with a random normal (in box units)
       double nn[3], nl = 0;
-      for (int k = 0; k < 3; ++k) { nn[k] = gauss(r); nl += nn[k] * nn[k]; }
+      for (int k = 0; k < 3; ++k) { nn[k] = gauss(rpos); nl += nn[k] * nn[k]; }
       nl = std::sqrt(nl);
       for (int k = 0; k < 3; ++k) nn[k] /= nl;
       int kmax = 0;
       for (int k = 1; k < 3; ++k) if (std::fabs(nn[k]) > std::fabs(nn[kmax])) kmax = k;
-      const double c0[3] = {r.uniform(0.4, 0.6), r.uniform(0.4, 0.6), r.uniform(0.4, 0.6)};
+      const double c0[3] = {rpos.uniform(0.4, 0.6), rpos.uniform(0.4, 0.6), rpos.uniform(0.4, 0.6)};
       c.sub = "tilted-plane perturb=1e-12";
       uint64_t tries = 0;
       while (p.size() < n && tries < 100 * n + 1000) {
         ++tries;
         double t[3];
-        for (int k = 0; k < 3; ++k) t[k] = r.uniform();
+        for (int k = 0; k < 3; ++k) t[k] = rpos.uniform();
         // solve the dominant coordinate from the plane equation (unit box coordinates)
         double rest = 0;
         for (int k = 0; k < 3; ++k) if (k != kmax) rest += nn[k] * (t[k] - c0[k]);
-        t[kmax] = c0[kmax] - rest / nn[kmax] + amp * r.uniform(-1., 1.);
+        t[kmax] = c0[kmax] - rest / nn[kmax] + amp * rpos.uniform(-1., 1.);
         if (!(t[kmax] > 0. && t[kmax] < 1.)) continue;
         p.push_back(CV(c.a[0] + c.s[0] * t[0], c.a[1] + c.s[1] * t[1], c.a[2] + c.s[2] * t[2]));
       }
@@ -222,19 +230,19 @@ static void make_case(Case &c, uint64_t id, uint64_t seed, vh::Rng r, uint64_t f
   }
   case COSPHERE: {
     const bool centre = (c.reg != 1);
-    const double R = r.uniform(0.2, 0.45) * smin;
+    const double R = rpos.uniform(0.2, 0.45) * smin;
     double cc[3];
-    for (int k = 0; k < 3; ++k) cc[k] = c.a[k] + c.s[k] * r.uniform(0.47, 0.53);
+    for (int k = 0; k < 3; ++k) cc[k] = c.a[k] + c.s[k] * rpos.uniform(0.47, 0.53);
     c.param = 1e-12;
     std::snprintf(buf, sizeof buf, "sphere R=%.3g*minside perturb=1e-12 centre_generator=%d", R / smin, (int)centre);
     c.sub = buf;
     if (centre && n > 2) p.push_back(CV(cc[0], cc[1], cc[2]));
     while (p.size() < n) {
       double d[3], dl = 0;
-      for (int k = 0; k < 3; ++k) { d[k] = gauss(r); dl += d[k] * d[k]; }
+      for (int k = 0; k < 3; ++k) { d[k] = gauss(rpos); dl += d[k] * d[k]; }
       dl = std::sqrt(dl);
       if (dl < 1e-3) continue;
-      const double rr = R * (1. + 1e-12 * r.uniform(-1., 1.));
+      const double rr = R * (1. + 1e-12 * rpos.uniform(-1., 1.));
       p.push_back(CV(cc[0] + rr * d[0] / dl, cc[1] + rr * d[1] / dl, cc[2] + rr * d[2] / dl));
     }
     break;
@@ -242,14 +250,14 @@ static void make_case(Case &c, uint64_t id, uint64_t seed, vh::Rng r, uint64_t f
   case LATTICE:
   case PLATTICE: {
     // 0 cubic, 1 rectangular, 2 bcc, 3 fcc
-    const int kind = (c.fam == LATTICE) ? (c.reg == 0 ? 0 : (c.reg == 1 ? 2 : (r.chance(0.5) ? 3 : 1))) : 0;
+    const int kind = (c.fam == LATTICE) ? (c.reg == 0 ? 0 : (c.reg == 1 ? 2 : (rpos.chance(0.5) ? 3 : 1))) : 0;
     const uint64_t per = kind == 2 ? 2 : (kind == 3 ? 4 : 1);
     uint64_t m[3];
     if (kind == 1) {
       uint64_t m0 = (uint64_t)std::floor(std::cbrt((double)n));
       if (m0 < 1) m0 = 1;
-      m[0] = (uint64_t)r.range(1, (int64_t)m0 + 1);
-      m[1] = (uint64_t)r.range(1, (int64_t)m0 + 1);
+      m[0] = (uint64_t)rpos.range(1, (int64_t)m0 + 1);
+      m[1] = (uint64_t)rpos.range(1, (int64_t)m0 + 1);
       m[2] = std::max< uint64_t >(1, n / (m[0] * m[1]));
       if (m[0] * m[1] * m[2] < 2) m[2] = 2;
     } else {
@@ -257,14 +265,14 @@ static void make_case(Case &c, uint64_t id, uint64_t seed, vh::Rng r, uint64_t f
       if (m0 < 1) m0 = 1;
       if (per == 1 && m0 < 2) m0 = 2;
       m[0] = m[1] = m[2] = m0;
-      if (c.fam == LATTICE && kind == 0 && r.chance(0.4) && m0 >= 2) { // power of two: exactly representable coordinates in dyadic boxes
+      if (c.fam == LATTICE && kind == 0 && rpos.chance(0.4) && m0 >= 2) { // power of two: exactly representable coordinates in dyadic boxes
         uint64_t q = 1;
         while (q * 2 <= m0) q *= 2;
         m[0] = m[1] = m[2] = q;
       }
     }
     static const double alo[3] = {1e-9, 1e-6, 1e-3}, ahi[3] = {1e-6, 1e-3, 0.4};
-    double amp = (c.fam == PLATTICE) ? r.loguniform(alo[c.reg], ahi[c.reg]) : 0.;
+    double amp = (c.fam == PLATTICE) ? rpos.loguniform(alo[c.reg], ahi[c.reg]) : 0.;
     if (g_xparam > 0. && c.fam == PLATTICE) amp = g_xparam;
     c.param = amp;
     static const double off1[1][3] = {{0.5, 0.5, 0.5}};
@@ -283,27 +291,27 @@ static void make_case(Case &c, uint64_t id, uint64_t seed, vh::Rng r, uint64_t f
             for (int d = 0; d < 3; ++d) {
               const double h = c.s[d] / (double)m[d];
               x[d] = c.a[d] + ((double)ijk[d] + off[q][d]) * h;
-              if (amp > 0.) x[d] += amp * h * r.uniform(-1., 1.);
+              if (amp > 0.) x[d] += amp * h * rpos.uniform(-1., 1.);
             }
             p.push_back(CV(x[0], x[1], x[2]));
           }
     break;
   }
   case WALL: {
-    const double frac = c.reg == 0 ? 1. : (c.reg == 1 ? r.uniform(0.2, 0.6) : 0.);
+    const double frac = c.reg == 0 ? 1. : (c.reg == 1 ? rpos.uniform(0.2, 0.6) : 0.);
     std::snprintf(buf, sizeof buf, "near-wall fraction=%.2f distance=[1e-12,1e-9]*side", frac);
     c.sub = buf;
     c.param = frac;
     for (uint64_t i = 0; i < n; ++i) {
       double x[3];
-      for (int k = 0; k < 3; ++k) x[k] = c.a[k] + c.s[k] * r.uniform();
-      if (r.chance(frac) || (c.reg == 2 && i == 0)) {
-        const int npin = (int)r.range(1, 3);
+      for (int k = 0; k < 3; ++k) x[k] = c.a[k] + c.s[k] * rpos.uniform();
+      if (rpos.chance(frac) || (c.reg == 2 && i == 0)) {
+        const int npin = (int)rpos.range(1, 2); // next to a face or an edge (corners would stack many generators within 1e-9 of each other)
         for (int q = 0; q < npin; ++q) {
-          const int k = (int)r.below(3);
-          double eps = r.loguniform(1e-12, 1e-9);
+          const int k = (int)rpos.below(3);
+          double eps = rpos.loguniform(1e-12, 1e-9);
           if (g_xparam > 0.) eps = g_xparam;
-          x[k] = r.chance(0.5) ? c.a[k] + c.s[k] * eps : c.a[k] + c.s[k] * (1. - eps);
+          x[k] = rpos.chance(0.5) ? c.a[k] + c.s[k] * eps : c.a[k] + c.s[k] * (1. - eps);
         }
       }
       p.push_back(CV(x[0], x[1], x[2]));
@@ -326,31 +334,31 @@ static void make_case(Case &c, uint64_t id, uint64_t seed, vh::Rng r, uint64_t f
     p.swap(q);
   }
   while (p.size() < 2) // the domain starts at 2 generators
-    p.push_back(CV(c.a[0] + c.s[0] * r.uniform(0.1, 0.9), c.a[1] + c.s[1] * r.uniform(0.1, 0.9), c.a[2] + c.s[2] * r.uniform(0.1, 0.9)));
+    p.push_back(CV(c.a[0] + c.s[0] * rpos.uniform(0.1, 0.9), c.a[1] + c.s[1] * rpos.uniform(0.1, 0.9), c.a[2] + c.s[2] * rpos.uniform(0.1, 0.9)));
   const size_t np = p.size();
-  c.worksize = (np > 100 && r.chance(0.6)) ? (int)r.range(2, 4) : 1;
-  if (np <= 100 && r.chance(0.2)) c.worksize = (int)r.range(2, 4);
+  c.worksize = (np > 100 && rsmp.chance(0.6)) ? (int)rsmp.range(2, 4) : 1;
+  if (np <= 100 && rsmp.chance(0.2)) c.worksize = (int)rsmp.range(2, 4);
 
   // ---- positions for get_index ----
   const size_t ns = std::min< size_t >(1500, 60 + 3 * np);
   c.samples.clear();
   for (size_t q = 0; q < ns; ++q) {
     double x[3];
-    const int kind = (int)r.below(5);
+    const int kind = (int)rsmp.below(5);
     if (kind <= 1) {
-      for (int k = 0; k < 3; ++k) x[k] = c.a[k] + c.s[k] * r.uniform();
+      for (int k = 0; k < 3; ++k) x[k] = c.a[k] + c.s[k] * rsmp.uniform();
     } else if (kind == 2) { // next to a generator
-      const CV &g = p[r.below(np)];
-      const double e = r.loguniform(1e-9, 1e-2);
-      for (int k = 0; k < 3; ++k) x[k] = g[k] + c.s[k] * e * r.uniform(-1., 1.);
+      const CV &g = p[rsmp.below(np)];
+      const double e = rsmp.loguniform(1e-9, 1e-2);
+      for (int k = 0; k < 3; ++k) x[k] = g[k] + c.s[k] * e * rsmp.uniform(-1., 1.);
     } else if (kind == 3) { // next to the bisector of two generators
-      const CV &g = p[r.below(np)], &h = p[r.below(np)];
-      const double t = 0.5 + r.loguniform(1e-7, 1e-1) * (r.chance(0.5) ? 1. : -1.);
+      const CV &g = p[rsmp.below(np)], &h = p[rsmp.below(np)];
+      const double t = 0.5 + rsmp.loguniform(1e-7, 1e-1) * (rsmp.chance(0.5) ? 1. : -1.);
       for (int k = 0; k < 3; ++k) x[k] = g[k] + t * (h[k] - g[k]);
     } else { // on / next to the walls (lower wall inclusive, upper wall exclusive)
       for (int k = 0; k < 3; ++k) {
-        x[k] = c.a[k] + c.s[k] * r.uniform();
-        const int w = (int)r.below(4);
+        x[k] = c.a[k] + c.s[k] * rsmp.uniform();
+        const int w = (int)rsmp.below(4);
         if (w == 0) x[k] = c.a[k];
         else if (w == 1) x[k] = c.a[k] + c.s[k] * (1. - 1e-12);
       }
@@ -373,7 +381,8 @@ static void wd(FILE *f, double x) { std::fwrite(&x, sizeof x, 1, f); }
 static void child_main(const Case &c, int ctor, FILE *out) {
   // watchdog: CPU seconds (robust against a loaded machine; ~100x the normal cost), wall clock as a backstop
   {
-    const rlim_t lim = c.pos.size() > 900 ? 240 : 40;
+    const double nk = (double)c.pos.size() / 1000.;
+    const rlim_t lim = (rlim_t)(g_cpu_factor * (20. + 150. * nk * nk)); // normal cost: < 0.6 s up to 900 generators, < 160 s for the worst 2000
     struct rlimit rl;
     rl.rlim_cur = lim;
     rl.rlim_max = lim + 5;
@@ -441,7 +450,13 @@ static void run_grid(const Case &c, int ctor, GridRec &g) {
     _exit(0);
   }
   int status = 0;
-  waitpid(pid, &status, 0);
+  struct rusage ru;
+  std::memset(&ru, 0, sizeof ru);
+  wait4(pid, &status, 0, &ru);
+  {
+    const double cpu = ru.ru_utime.tv_sec + 1e-6 * ru.ru_utime.tv_usec + ru.ru_stime.tv_sec + 1e-6 * ru.ru_stime.tv_usec;
+    st.maxd(std::string("max_child_cpu_seconds_") + (c.pos.size() > 900 ? "n_above_900" : "n_upto_900"), cpu);
+  }
   // stderr of the child
   {
     std::fseek(err, 0, SEEK_END);
@@ -528,7 +543,7 @@ static void run_grid(const Case &c, int ctor, GridRec &g) {
 
 struct Geo {
   LD a[3], s[3];
-  LD vbox, ascale, amin, lmax, quantum, eps_old;
+  LD vbox, ascale, amin, lmax, diag, quantum, eps_old;
   std::vector< LD > x; // 3n generators
 };
 
@@ -656,6 +671,7 @@ static bool eval_grid(const Case &c, const Geo &G, const GridRec &g, int ctor, s
         q.slack = std::max(q.slack, old_slack(G, ctor, dist));
       }
     }
+    if (q.h > G.diag) q.h = G.diag; // a cell of a tessellation of the box is not larger than the box (garbage vertices must not widen the tolerances)
     q.dd = q.dmin;
     {
       std::vector< uint32_t > nb;
@@ -737,11 +753,25 @@ static bool eval_grid(const Case &c, const Geo &G, const GridRec &g, int ctor, s
       LD off = -dist;
       for (int k = 0; k < 3; ++k) off += ((LD)fr.mid[k] - G.x[3 * i + k]) * nrm[k];
       LD worst = fabsl(off);
+      LD outside = 0;
+      bool finite = std::isfinite(fr.mid[0]) && std::isfinite(fr.mid[1]) && std::isfinite(fr.mid[2]);
       for (size_t k = 0; k < fr.v.size() / 3; ++k) {
         LD o = -dist;
-        for (int d = 0; d < 3; ++d) o += ((LD)fr.v[3 * k + d] - G.x[3 * i + d]) * nrm[d];
+        for (int d = 0; d < 3; ++d) {
+          const LD x = fr.v[3 * k + d];
+          finite &= std::isfinite(fr.v[3 * k + d]);
+          o += (x - G.x[3 * i + d]) * nrm[d];
+          outside = std::max(outside, std::max(G.a[d] - x, x - (G.a[d] + G.s[d])));
+        }
         worst = std::max(worst, fabsl(o));
       }
+      if (!finite) {
+        C15_VIOL("tessellation", ctor, c, "vertex-finite", "cell %zu face to %#x (area %.6g) has a non-finite midpoint or vertex", i, fr.ngb, fr.area);
+        continue;
+      }
+      if (!(outside <= tf))
+        C15_VIOL("tessellation", ctor, c, "vertex-in-box", "cell %zu face to %#x (area %.6g) has a vertex %.3Lg outside the box (tolerance %.3Lg)", i, fr.ngb, fr.area,
+                 outside, tf);
       if (tf > 0) {
         st.maxd("max_plane_offset_over_tolerance_" + cn, (double)(worst / tf));
         st.maxd("max_plane_offset_over_tolerance_" + cn + "_" + FAMNAME[c.fam], (double)(worst / tf));
@@ -895,18 +925,60 @@ static void compare(const Case &c, const Geo &G, const GridRec &gn, const GridRe
 
 // ---------------------------------------------------------------------------
 
+struct Pinned {
+  uint64_t seed, id;
+  int fam, reg;
+  uint64_t n;
+  double aspect, xparam;
+  const char *what;
+};
+static const Pinned PINNED[] = {
+    // seed, case, family, regime, n, aspect, xparam (-1 / 0: as drawn for that seed and case with --stride 16)
+    {600005, 25, -1, -1, 0, 0., 0., "4 generators next to the walls: the new construction never returns"},
+    {600006, 7, -1, -1, 0, 0., 0., "5 generators, some next to a wall: new construction, volumes do not sum to the box"},
+    {600008, 12, -1, -1, 0, 0., 0., "bcc lattice 3x3x3 (54 generators): new construction returns invalid cells"},
+    {3, 1, PLATTICE, 0, 216, 100., 0., "6x6x6 lattice perturbed by 7e-8 spacings in a 1:100 box: new construction, twin faces differ"},
+    {3, 30, PLATTICE, 0, 216, 100., 0., "6x6x6 lattice perturbed by ~1e-8 spacings in a 1:100 box: new construction never returns"},
+    {600002, 38, -1, -1, 0, 0., 0., "75 generators in tight blobs: old construction segfaults"},
+    {600015, 34, -1, -1, 0, 0., 0., "71 generators, some next to a wall: old construction segfaults"},
+    {600008, 35, -1, -1, 0, 0., 0., "64 generators in tight blobs: old construction, twin faces differ"},
+    {600003, 8, -1, -1, 0, 0., 0., "2x2x2 lattice perturbed by ~1e-8 spacings: old construction, volumes do not sum to the box"},
+    {600006, 32, -1, -1, 0, 0., 0., "234 uniform generators in an elongated box: old construction, volumes do not sum to the box"},
+    {4, 35, COPLANAR, 1, 350, 70., 0., "350 nearly coplanar generators, 1:70 box: old construction, volumes do not sum to the box"},
+    {4, 25, WALL, 2, 800, 0., 0., "800 uniform generators, one next to a wall: old construction, volumes do not sum to the box"},
+    {600009, 3, -1, -1, 0, 0., 0., "18 clustered generators: old and new volumes differ"},
+    {600005, 9, -1, -1, 0, 0., 0., "355 nearly coplanar generators: old and new volumes differ"},
+    {600003, 0, -1, -1, 0, 0., 0., "161 nearly cospherical generators: old and new volumes differ"},
+    {600000, 20, -1, -1, 0, 0., 0., "3x3x3 lattice perturbed by <1e-6 spacings: old and new volumes differ"},
+};
+static const size_t NPINNED = sizeof(PINNED) / sizeof(PINNED[0]);
+
 int main(int argc, char **argv) {
-  const uint64_t seed = vh::arg_u64(argc, argv, "--seed", 1);
-  const uint64_t ngrids = vh::arg_u64(argc, argv, "--grids", 4);
-  const int64_t only = (int64_t)vh::arg_u64(argc, argv, "--only", (uint64_t)-1);
-  const uint64_t forced_n = vh::arg_u64(argc, argv, "--n", 0);
+  uint64_t seed = vh::arg_u64(argc, argv, "--seed", 1);
+  uint64_t ngrids = vh::arg_u64(argc, argv, "--grids", 4);
+  int64_t only = (int64_t)vh::arg_u64(argc, argv, "--only", (uint64_t)-1);
+  uint64_t forced_n = vh::arg_u64(argc, argv, "--n", 0);
   const int only_ctor = (int)vh::arg_u64(argc, argv, "--ctor", 2); // 0 new, 1 old, 2 both
-  const int forced_fam = (int)(int64_t)vh::arg_u64(argc, argv, "--family", (uint64_t)-1); // exploration aids
-  const int forced_reg = (int)(int64_t)vh::arg_u64(argc, argv, "--regime", (uint64_t)-1);
-  const double forced_aspect = vh::arg_f(argc, argv, "--aspect", 0.);
+  int forced_fam = (int)(int64_t)vh::arg_u64(argc, argv, "--family", (uint64_t)-1); // exploration aids / pinned witnesses
+  int forced_reg = (int)(int64_t)vh::arg_u64(argc, argv, "--regime", (uint64_t)-1);
+  double forced_aspect = vh::arg_f(argc, argv, "--aspect", 0.);
   g_verbose = vh::arg_flag(argc, argv, "--verbose") || only >= 0;
   g_nofork = vh::arg_flag(argc, argv, "--nofork");
   g_xparam = vh::arg_f(argc, argv, "--xparam", 0.);
+  uint64_t stride = vh::arg_u64(argc, argv, "--stride", 16); // number of shards of the run
+  if (stride < 1) stride = 1;
+  if (vh::arg_flag(argc, argv, "--pinned-count")) { std::printf("%zu\n", NPINNED); return 0; }
+  g_slowcap = vh::arg_u64(argc, argv, "--slowcap", 400);
+  g_cpu_factor = vh::arg_f(argc, argv, "--cpufactor", 1.);
+  // pinned witnesses: fixed generator sets (fixed seed/case/family/regime/size/aspect/parameter) that are part of every
+  // run, so that the findings they witness are reported under the same keys whatever VERIF_SEED is.
+  const int64_t pinned = (int64_t)vh::arg_u64(argc, argv, "--pinned", (uint64_t)-1);
+  if (pinned >= 0) {
+    if (pinned >= (int64_t)NPINNED) { std::printf("DONE violations=0 (no such pinned case)\n"); return 0; }
+    const Pinned &P = PINNED[pinned];
+    seed = P.seed; only = (int64_t)P.id; ngrids = P.id + 1; stride = 16; forced_fam = P.fam; forced_reg = P.reg; forced_n = P.n; forced_aspect = P.aspect; g_xparam = P.xparam;
+    st.inc("pinned_witnesses");
+  }
   const char *dump = vh::arg_str(argc, argv, "--dump", nullptr);
   vh::g_viol_print_limit = 1000; // printing is limited per (case, clause) instead
   vh::Rng master(seed * 1000003ull + 15);
@@ -915,7 +987,8 @@ int main(int argc, char **argv) {
   for (uint64_t id = 0; id < ngrids; ++id) {
     if (only >= 0 && (int64_t)id != only) continue;
     Case c;
-    make_case(c, id, seed, master.fork(id), forced_n, forced_fam, forced_reg, forced_aspect);
+    make_case(c, id, id * stride + seed % stride, master.fork(id), forced_n, forced_fam, forced_reg, forced_aspect);
+    if (pinned >= 0) c.sub += std::string("; pinned witness ") + std::to_string(pinned) + ": " + PINNED[pinned].what;
     const size_t n = c.pos.size();
     const int fam = c.fam;
     st.inc("grids");
@@ -943,6 +1016,7 @@ int main(int argc, char **argv) {
     G.ascale = powl(G.vbox, 2.0L / 3.0L);
     G.amin = 1e-10L * G.ascale;
     G.lmax = smax;
+    G.diag = sqrtl(G.s[0] * G.s[0] + G.s[1] * G.s[1] + G.s[2] * G.s[2]);
     G.quantum = 2.220446049250313e-16L * std::max(mag, (LD)smax);
     G.eps_old = (LD)OLDVORONOI_TOLERANCE * (G.s[0] * G.s[0] + G.s[1] * G.s[1] + G.s[2] * G.s[2]);
     G.x.resize(3 * n);
